@@ -10,7 +10,9 @@ const uint64_t TMR_NS_POOL[] = {1, 1000, 1000000, 3000000, 5000000, 10000000, 20
                                 5000000000ULL, 60000000000ULL, 4294967296ULL + 1000000ULL, 8589934592ULL + 1000000ULL,
                                 3ULL * 4294967296ULL + 3000000ULL, 2147483648ULL + 1000ULL, 1ULL << 40};
 const int TMR_NS_POOL_N = sizeof(TMR_NS_POOL) / sizeof(*TMR_NS_POOL);
-const char *const TOPIC_POOL[] = {"t0", "t1", "t2", "abc", "a.c", "t.*", "^t[01]$", "x", "bc", "t0t1"};
+const char *const TOPIC_POOL[] = {"t0", "t1", "t2", "abc", "a.c", "t.*", "^t[01]$", "x", "bc", "t0t1",
+                                   // literal topics that, read as a regular expression, do not match their own text (appended: stored replays keep their indices)
+                                   "t[0]", "a$c"};
 const int TOPIC_POOL_N = sizeof(TOPIC_POOL) / sizeof(*TOPIC_POOL);
 static const char *const SYS_TOPICS[] = {M_PS_CTX_STARTED, M_PS_CTX_STOPPED, M_PS_CTX_TICK, M_PS_MOD_STARTED, M_PS_MOD_STOPPED, "LIBMODULE_.*"};
 static const char *const BAD_TOPICS[] = {"[", "LIBMODULE_USER", "LIBMODULE_CTX_STARTED"};
@@ -228,6 +230,10 @@ struct ApiScope {
     int st_before;
     bool want_snap;
     int actor = -1;
+    // C18: the activity statistics of the module that pays for the call, as m_mod_stats reports them ("refused calls have no effect")
+    bool stats0_ok = false;
+    uint64_t stats0_now = 0;
+    m_mod_stats_t stats0;
     ApiScope(const char *name, int slot_) : slot(slot_) {
         sample_states("api-enter");
         st_before = state_of(slot);
@@ -254,6 +260,12 @@ struct ApiScope {
         }
         actor = W->next_actor;
         W->next_actor = -1;
+        if (on("C18")) {
+            int payer = actor >= 0 ? actor : slot;
+            m_mod_t *h = payer >= 0 && payer < (int)W->slots.size() ? W->slots[payer].handle() : NULL;
+            stats0_now = R->now;
+            if (h && W->slots[payer].tb_rate) stats0_ok = m_mod_stats(h, &stats0) == 0 && R->now == stats0_now;
+        }
         Frame f;
         f.actor = actor;
         f.had_ctx_at_entry = W->has_ctx;
@@ -271,6 +283,19 @@ struct ApiScope {
         r.actor = actor;
         r.name = f.name; r.slot = slot; r.rc = rc; r.st_before = st_before; r.st_after = state_of(slot); r.gseq = R->gseq; r.in_cb = in_any_cb();
         std::string snap1 = (want_snap && rc != 0) ? snapshot() : std::string();
+        if (stats0_ok && rc == -EAGAIN && !f.nested) {
+            int payer = actor >= 0 ? actor : slot;
+            m_mod_t *h = W->slots[payer].handle();
+            m_mod_stats_t st1;
+            // same simulated instant before and after (no time passed inside the refused call): what the module reports about its own
+            // activity must be what it reported before the call
+            if (h && m_mod_stats(h, &st1) == 0 && R->now == stats0_now) {
+                oracle_eval("C18.refusal-stats");
+                if (st1.inactive_ms != stats0.inactive_ms || memcmp(&st1.activity_freq, &stats0.activity_freq, sizeof(double)) || st1.sent_msgs != stats0.sent_msgs || st1.recv_msgs != stats0.recv_msgs)
+                    VIOL("C18", "C18:refused-call-counted-as-activity", "%s by module slot %d was refused with -EAGAIN but changed the module's activity statistics: inactive %lu -> %lu ms, frequency %g -> %g, sent %lu -> %lu",
+                         f.name.c_str(), payer, (unsigned long)stats0.inactive_ms, (unsigned long)st1.inactive_ms, stats0.activity_freq, st1.activity_freq, (unsigned long)stats0.sent_msgs, (unsigned long)st1.sent_msgs);
+            }
+        }
         if (W->apis.size() < 100000) W->apis.push_back(r);
         orc_api_exit(r, f, snap0, snap1);
         return rc;
@@ -658,6 +683,7 @@ static bool calm(int m) {
 }
 
 int g_src_unpollable_pid = -1;
+bool g_src_unpollable_fd = false;   // the descriptor of the src_fd call in progress is a regular file (epoll refuses it)
 void exec_op(const Op &op, bool in_cb, int cb_slot) {
     const std::string &n = op.name;
     if (R->horizon_hit && n != "ctx_quit") { /* keep going: teardown still runs */ }
@@ -1048,6 +1074,7 @@ void exec_op(const Op &op, bool in_cb, int cb_slot) {
             if (n == "src_fd") {
                 unsigned fl = src_flags_from(op.arg(2) & (1 | 2 | 4 | 8 | 16 | 32));
                 if ((fl & M_SRC_DUP) && (fl & M_SRC_FD_AUTOCLOSE)) fl &= ~M_SRC_FD_AUTOCLOSE;   // who owns what is unspecified for DUP|AUTOCLOSE
+                g_src_unpollable_fd = R->k.get(fd) && R->k.get(fd)->kind == sim::F_STD;
                 do_register("src_fd", M_SRC_TYPE_FD, k, 0, prio_valid(fl, true), fl,
                             [&](const void *ud) { return m_mod_src_register_fd(h, fd, (m_src_flags)fl, ud); },
                             [&](SrcM &x) {
@@ -1057,6 +1084,7 @@ void exec_op(const Op &op, bool in_cb, int cb_slot) {
                                     W->autoclose_regs.push_back(ar);
                                 }
                             });
+                g_src_unpollable_fd = false;
             } else {
                 do_deregister("unsrc_fd", M_SRC_TYPE_FD, k, 0, [&]() { return m_mod_src_deregister_fd(h, fd); });
             }
